@@ -228,6 +228,9 @@ def focus_shapes() -> list[tuple[str, int, dict]]:
         ("org-rev", 1, {"p": [[0, 15], [345, 360]], "s": -1}),
         ("org-fwd3", 1, {"p": [[336, 348], [354, 360], [0, 6], [12, 24]], "s": 1}),
         ("org-rev3", 1, {"p": [[12, 24], [0, 6], [354, 360], [336, 348]], "s": -1}),
+        # three exons over the origin, the two before it touching (pieces merged in a chain when shifted; seed C12-11)
+        ("org-fwd-touch", 1, {"p": [[330, 345], [345, 360], [0, 15]], "s": 1}),
+        ("org-rev-touch", 1, {"p": [[0, 15], [345, 360], [330, 345]], "s": -1}),
         ("circ-fwd", 1, {"p": [[135, 165]], "s": 1}),
         ("order-fwd", 0, {"p": [[126, 144], [153, 165]], "s": 1, "op": "order"}),     # order(...) instead of join(...)
         ("order-rev", 0, {"p": [[153, 165], [126, 144]], "s": -1, "op": "order"}),
